@@ -203,7 +203,18 @@ def r2_edge_provenance(ctx):
                 # fold(start gate, |_, con| con.endpoint): the last connection's endpoint, or the gate itself for an empty chain
                 if rts and all(t2[0] == 'field' and t2[2] == 'endpoint' and any(y[0] == 'arg' and y[1] == 3 for y in walk(t2)) for t2 in rts):
                     fold_end = True
-            e_ok = e_ok or fold_end
+            # last form: `path_iter().last().map_or_else(|| gate.clone(), |con| con.endpoint)` (the start gate itself for an empty chain)
+            last_end = False
+            for x in walk(end):
+                if x[0] == 'call' and 'option::Option' in x[1] and x[1].split('::')[-1] in ('map_or_else', 'map_or') and len(x[2]) == 3:
+                    src = peel(x[2][0])
+                    if src[0] == 'call' and src[1].endswith('Iterator::last') and src[2] and any(y[0] == 'call' and y[1].endswith('Gate::path_iter') for y in walk(src[2][0])):
+                        cl = peel(x[2][2])
+                        g2 = P.fns.get(cl[1][len('closure:'):]) if cl[0] == 'agg' and str(cl[1]).startswith('closure:') else None
+                        rts = [peel(t2) for _, t2 in ret_trees(g2)] if g2 else []
+                        if rts and all(t2[0] == 'field' and t2[2] == 'endpoint' and any(y[0] == 'arg' and y[1] == 2 for y in walk(t2)) for t2 in rts):
+                            last_end = True
+            e_ok = e_ok or fold_end or last_end
             dst = fields['dst']
             d_ok = any(x[0] == 'call' and x[1].endswith('::position') for x in walk(dst))
             if not d_ok:
@@ -229,7 +240,8 @@ def r2_edge_provenance(ctx):
             owner = [s for s in f.calls() if s.name.endswith('Gate::owner') and f.dominates(s.b, b)]
             ctx.check(any(any(x[0] == 'field' and x[2] == 'endpoint' for x in walk(f.expr_operand(s.args[0], s.b, 'T'))) or
                           any(x[0] in ('phi', 'var') and x[-1] == 'end' for x in walk(f.expr_operand(s.args[0], s.b, 'T'))) or
-                          (fold_end and any(x[0] == 'call' and x[1].endswith('Iterator::fold') for x in walk(f.expr_operand(s.args[0], s.b, 'T')))) for s in owner), 'dst-from-end-owner:%s' % key.split('::')[-1],
+                          (fold_end and any(x[0] == 'call' and x[1].endswith('Iterator::fold') for x in walk(f.expr_operand(s.args[0], s.b, 'T')))) or
+                          (last_end and any(x[0] == 'call' and x[1].endswith('Iterator::last') for x in walk(f.expr_operand(s.args[0], s.b, 'T')))) for s in owner), 'dst-from-end-owner:%s' % key.split('::')[-1],
                       'the destination node is the owner of the end gate', f.where(b))
         # the walk covers the whole chain: the loop that assigns `end = con.endpoint` iterates the path iterator itself
         walks = []
@@ -240,7 +252,7 @@ def r2_edge_provenance(ctx):
                     nx = [x for x in walk(t) if x[0] == 'call' and x[1].endswith('::next')]
                     if nx:
                         walks.append((b, nx[0]))
-        fold_sites = [s for s in f.calls() if (s.callee or '') == 'std::iter::Iterator::fold' and any(y[0] == 'call' and y[1].endswith('Gate::path_iter') for y in walk(f.expr_operand(s.args[0], s.b, 'T')))]
+        fold_sites = [s for s in f.calls() if (s.callee or '') in ('std::iter::Iterator::fold', 'std::iter::Iterator::last') and any(y[0] == 'call' and y[1].endswith('Gate::path_iter') for y in walk(f.expr_operand(s.args[0], s.b, 'T')))]
         if not walks and fold_sites:
             for s in fold_sites:
                 ty = s.argtys[0] if s.argtys else ''
